@@ -16,12 +16,12 @@ from common import ENV, KANI_TARGET, log, run
 KANI_FLAGS = ["-Z", "function-contracts", "-Z", "stubbing", "-Z", "unstable-options"]
 
 # check classes whose FAILURE never means "the property is violated"
-UNDECIDED_CLASSES = ("unwind", "unsupported_construct", "reachability_check", "recursion")
+UNDECIDED_CLASSES = ("unwind", "unsupported_construct", "missing_definition", "reachability_check", "recursion")
 
 
 class Harness:
     def __init__(self, name, obligation, label, desc, crate="scylla", carries=True, canary=False,
-                 tier="quick", bound=None, solver=None, timeout=None, functions=()):
+                 tier="quick", bound=None, solver=None, timeout=None, functions=(), twin=False):
         self.name = name              # bare function name of the harness (unique, prefixed cNN_)
         self.obligation = obligation  # obligation id, e.g. C11.shard_of.contract
         self.label = label            # PROVED-C | BOUNDED
@@ -34,6 +34,7 @@ class Harness:
         self.solver = solver
         self.timeout = timeout
         self.functions = functions    # functions of /repo under contract in this harness
+        self.twin = twin              # bounded twin of a Verus contract: runs when Verus cannot decide / reports a violation, and in thorough
 
 
 def parse_result_file(path):
@@ -86,10 +87,12 @@ def classify(h, res):
         if hard:
             return "discharged", "canary refuted as expected", hard
         return "undecided", "canary obligation was NOT refuted: pipeline cannot be trusted", []
+    if soft:
+        # an unwinding assertion, an unsupported construct or a missing definition was reached: every other
+        # failure of this harness may be a consequence of it => tool limit, never a verdict
+        return "undecided", "unwinding/unsupported/missing definition reached: " + (soft[0]["description"] or soft[0]["id"]), soft
     if hard:
         return "violated", "failed checks", hard
-    if soft:
-        return "undecided", "unwinding/unsupported: " + soft[0]["description"], soft
     if undet:
         return "undecided", "undetermined checks", undet
     if unsat_cover:
